@@ -283,6 +283,24 @@ def run (st : State) : List Op → State
 /-- batches visible through snapshot `s` -/
 def view (st : State) (s : Nat) : List Nat := (st.S s).parts.flatMap fun w => (st.P w).src
 
+/-- The parts a query evaluates: the *pinned list* of the snapshot it holds (measure `snapshot.getParts`,
+sidx `selectPartsForQuery`: `for _, pw := range snap.parts`).  In particular NOT a function of the shared, mutable
+`removable` flag of the wrappers. -/
+def queryParts (st : State) (s : Nat) : List Nat := (st.S s).parts
+
+/-- the variant that additionally skips wrappers whose `removable` flag is set (what `Snapshot.getPartsAll` does for
+statistics) — unsound for queries, see `flag_reading_query_counterexample` -/
+def queryPartsSkippingRemovable (st : State) (s : Nat) : List Nat :=
+  (st.S s).parts.filter fun w => !(st.P w).removable
+
+def viewSkippingRemovable (st : State) (s : Nat) : List Nat :=
+  (queryPartsSkippingRemovable st s).flatMap fun w => (st.P w).src
+
+/-- PREPARE side effect of `Snapshot.remove` (run by `PrepareMerged/PrepareSynced` inside `NewTransition`, before the
+transaction commits): the inputs are flagged `removable`, nothing is published yet. -/
+def markRemovable (ids : List Nat) (st : State) : State :=
+  { st with P := applyAll (fun _ p => if ids.contains p.pid then { p with removable := true } else p) (curParts st) st.P }
+
 /-- part directories present on disk: a file wrapper whose `MustRMAll` has not been issued -/
 def dirExists (st : State) (w : Nat) : Bool := !(st.P w).mem && (st.P w).delCount == 0
 
